@@ -97,6 +97,6 @@ contract(
     ensures=lambda spec, result, _ptype, _pieces:
         result == Expected(spec, _ptype, _pieces),
     raises={},
-    serves=["C10"],
+    serves=["C10", "C16"],
     inline_at_calls=True,
 )
